@@ -331,7 +331,7 @@ class C12(F.Check):
 
         # ---------------- same step, bit-precise at reduced width
         W = 5 if self.tier == "quick" else 6
-        for w, kind in ((W, "claimed"), (W + 1, "stretch")):
+        for w, kind in (((W, "claimed"),) if self.tier == "quick" else ((W, "claimed"), (W + 1, "stretch"))):
             Bw = T.BV(w)
 
             def fn_w(K, a, b, n, rec, w=w):
@@ -359,7 +359,7 @@ class C12(F.Check):
         # wraps onto n would be a false positive (it is one for the even n = 2^34 + 4, which the primality test never passes in).
         # For ODD n with n mod 8 in {3, 5, 7} (so certainly not squares) the solver shows that
         # no return within the first U iterations answers 'true'.
-        U_SQ = 6 if self.tier == "quick" else 24
+        U_SQ = 5 if self.tier == "quick" else 24
 
         def fn_sq(K, n, U_SQ=U_SQ):
             if isinstance(K["c12_is_square"], F.NativeHandle):
@@ -378,14 +378,14 @@ class C12(F.Check):
                         routes=["cvc5-bv", "z3-bv"], timeout=200,
                         note="64-bit, bit-precise: odd n with n mod 8 != 1 (hence not a square) is never reported as a perfect square by "
                              "any return within the first %d Newton iterations (paths needing more iterations are outside the claim)" % U_SQ))
-        WG = 8
+        WG = 6 if self.tier == "quick" else 8
 
         def fn_gcd(K, a, b, WG=WG):
             if isinstance(K["c12_gcd"], F.NativeHandle):
                 import math
                 e = K["c12_gcd"](T.zext(a, 64), T.zext(b, 64))
                 return T.TRUE, T.and_(T.not_(e.ub), T.eq(e.ret, T.const_bv(math.gcd(a.attr, b.attr), 64)))
-            e = K["c12_gcd"](a, b, unwind=14, width_map={64: WG})
+            e = K["c12_gcd"](a, b, unwind=14, width_map={64: WG, 32: WG})
             g = e.ret
             z = T.const_bv(0, WG)
             nz = T.ne(g, z)
